@@ -344,7 +344,15 @@ impl Cartesian<'_> {
             return Err("Stopped".into());
         }
 
-        Ok(trace)
+        if self.include_linear_interpolation {
+            Ok(trace)
+        } else {
+            // Interpolated poses were only needed for planning and checking.
+            Ok(trace
+                .into_iter()
+                .filter(|waypoint| !waypoint.flags.contains(PathFlags::LIN_INTERP))
+                .collect())
+        }
     }
 
     /// Transition cartesian way from 'from' into 'to' while assuming 'from'
